@@ -19,13 +19,14 @@ for f in ["patch.diff", "demo.rs", "notes.md"]:
 notes = open(os.path.join(src, "notes.md")).read()
 import re
 first = notes.splitlines()[0] if notes else ""
-base = prop[3:] if prop.startswith("R5-") else prop
+perprop = re.match(r"^R[5-9]-C\d\d$", prop) is not None
+base = prop[3:] if perprop else prop
 breaks = re.findall(r"C\d\d", first) if first.upper().startswith("BREAKS") else [base]
 if not breaks: breaks = [base]
 meta = {
     "id": "%s-%s" % (prop, k),
     "breaks": breaks,
-    "source": ("round-5 sub-agent that saw only the text of property %s (asked for three kinds of change: two cooperating sites / multi-step sequence or rare API combination or unusual type / interleaving or fault at a particular point) and its own scratch worktree of /repo (nothing from /verif)" % base) if prop.startswith("R5-") else ("sub-agent that saw only the text of property %s and its own scratch worktree of /repo (nothing from /verif)" % prop) if prop.startswith("C") else ("round-%s sub-agent that saw" % (prop[1] if prop[0]=="R" and prop[1].isdigit() else "2")) + "  the texts of properties C01-C19, a focus area of the code and its own scratch worktree of /repo (nothing from /verif)",
+    "source": ("round-%s sub-agent that saw only the text of property %s (asked for three kinds of change: two cooperating sites / multi-step sequence or rare API combination or unusual type / interleaving or fault at a particular point) and its own scratch worktree of /repo (nothing from /verif)" % (prop[1], base)) if perprop else ("sub-agent that saw only the text of property %s and its own scratch worktree of /repo (nothing from /verif)" % prop) if prop.startswith("C") else ("round-%s sub-agent that saw" % (prop[1] if prop[0]=="R" and prop[1].isdigit() else "2")) + "  the texts of properties C01-C19, a focus area of the code and its own scratch worktree of /repo (nothing from /verif)",
     "needs_to_manifest": notes[:1200],
     "verified_by_me": {
         "demo_mode": mode,
